@@ -175,6 +175,8 @@ def _decode_dmrs(lexer):
     if lexer.accept_type(LBRACKET):
         lnk = _decode_lnk(lexer)
         surface = lexer.accept_type(DQSTRING)
+        if surface is not None:
+            surface = _unescape(surface)
         graphprops = dict(_decode_properties(lexer))
         top = graphprops.get('TOP')
         index = graphprops.get('INDEX')
@@ -221,6 +223,7 @@ def _decode_node(nodeid, lexer):
     carg = None
     if lexer.accept_type(LPAREN):
         carg, _ = lexer.expect_type(DQSTRING, RPAREN)
+        carg = _unescape(carg)
     nodetype = lexer.accept_type(SYMBOL)
     properties = dict(_decode_properties(lexer))
     lexer.expect_type(SEMICOLON)
@@ -279,7 +282,7 @@ def _encode_attrs(d, lnk):
         if d.lnk:
             attrs.append(str(d.lnk))
         if d.surface is not None:
-            attrs.append('"{}"'.format(d.surface))
+            attrs.append('"{}"'.format(_escape(d.surface)))
     if d.top is not None:
         attrs.append('top={}'.format(d.top))
     if d.index is not None:
@@ -294,7 +297,8 @@ def _encode_node(node, properties, lnk):
         nodeid=node.id,
         pred=node.predicate,
         lnk=str(node.lnk) if lnk else '',
-        carg='' if node.carg is None else '("{}")'.format(node.carg),
+        carg=('' if node.carg is None
+              else '("{}")'.format(_escape(node.carg))),
         sortinfo=_encode_sortinfo(node, properties))
 
 
@@ -318,3 +322,22 @@ def _encode_link(link):
         post=link.post,
         arrow='->' if link.role or link.post != EQ_POST else '--',
         end=link.end)
+
+
+# Character Escaping (as in SimpleMRS)
+
+def _escape(s: str) -> str:
+    return s.replace('\\', '\\\\').replace('"', '\\"')
+
+
+def _unescape(s: str) -> str:
+    cs = []
+    i = 0
+    while i < len(s):
+        if s[i] == '\\' and (i + 1) < len(s):
+            cs.append(s[i+1])
+            i += 2
+        else:
+            cs.append(s[i])
+            i += 1
+    return "".join(cs)
